@@ -21,7 +21,8 @@ struct Inst { pl::Instance in; bool closed = false; bool have_bank = false; OPN2
 typedef std::function<void(Inst &, mcx::Verdict &)> Fn;
 struct Op { std::string name; Fn fn; bool thorough_only; };
 
-static std::set<std::string> g_called;   // exported functions the op table reaches
+static std::set<std::string> g_called;
+static std::string g_label = "C03";   // exported functions the op table reaches
 
 struct C03Model : mcx::Model {
     std::vector<Op> ops; std::vector<std::string> starts; bool thorough = false;
@@ -89,18 +90,21 @@ struct C03Model : mcx::Model {
             auto audit = [](Inst &I, mcx::Verdict &vd, const std::string &after) {
                 char t[200];
                 for(int u = 0; u < NU; u++) { OPN2_BankId id; id.percussive = (OPN2_UInt8)U[u].perc; id.msb = (OPN2_UInt8)U[u].msb; id.lsb = (OPN2_UInt8)U[u].lsb; OPN2_Bank bk; int rc = opn2_getBank(D, &id, 0, &bk); bool want = I.refbanks.count(u) != 0;
-                    if(want && rc != 0) { snprintf(t, sizeof t, "after %s: opn2_getBank(find %d/%d/%d) = %d for a bank that exists", after.c_str(), U[u].perc, U[u].msb, U[u].lsb, rc); vd.fail("C03/bank/existing-bank-not-found", t); return; }
-                    if(!want && rc >= 0) { snprintf(t, sizeof t, "after %s: opn2_getBank(find %d/%d/%d) = %d for a bank that does not exist (documented to fail with a negative value)", after.c_str(), U[u].perc, U[u].msb, U[u].lsb, rc); vd.fail("C03/bank/lookup-of-absent-bank-succeeded", t); return; } }
+                    if(want && rc != 0) { snprintf(t, sizeof t, "after %s: opn2_getBank(find %d/%d/%d) = %d for a bank that exists", after.c_str(), U[u].perc, U[u].msb, U[u].lsb, rc); vd.fail(g_label + "/bank/existing-bank-not-found", t); return; }
+                    if(!want && rc >= 0) { snprintf(t, sizeof t, "after %s: opn2_getBank(find %d/%d/%d) = %d for a bank that does not exist (documented to fail with a negative value)", after.c_str(), U[u].perc, U[u].msb, U[u].lsb, rc); vd.fail(g_label + "/bank/lookup-of-absent-bank-succeeded", t); return; } }
                 OPN2_Bank it; size_t n = 0; if(opn2_getFirstBank(D, &it) == 0) { n = 1; while(opn2_getNextBank(D, &it) == 0 && n < 5000) n++; }
-                if(n >= 5000) { vd.fail("C03/bank/enumeration-does-not-end", "after " + after + ": opn2_getNextBank still delivers banks after 5000 steps"); return; }
-                if(n != I.refbanks.size()) { snprintf(t, sizeof t, "after %s: enumeration visits %zu bank(s), %zu exist", after.c_str(), n, I.refbanks.size()); vd.fail("C03/bank/enumeration-count", t); return; } };
+                if(n >= 5000) { vd.fail(g_label + "/bank/enumeration-does-not-end", "after " + after + ": opn2_getNextBank still delivers banks after 5000 steps"); return; }
+                if(n != I.refbanks.size()) { snprintf(t, sizeof t, "after %s: enumeration visits %zu bank(s), %zu exist", after.c_str(), n, I.refbanks.size()); vd.fail(g_label + "/bank/enumeration-count", t); return; } };
             for(int u = 0; u < NU; u++) {
                 snprintf(b, sizeof b, "bank:create(%d/%d/%d)", U[u].perc, U[u].msb, U[u].lsb); nm = b;
-                add(nm, [u, nm, audit](Inst &I, mcx::Verdict &vd) { OPN2_BankId id; id.percussive = (OPN2_UInt8)U[u].perc; id.msb = (OPN2_UInt8)U[u].msb; id.lsb = (OPN2_UInt8)U[u].lsb; OPN2_Bank bk; int rc = opn2_getBank(D, &id, OPNMIDI_Bank_Create, &bk); if(rc != 0) { vd.fail("C03/bank/create-failed", nm + " returned " + std::to_string(rc)); return; } I.refbanks.insert(u); audit(I, vd, nm); });
+                add(nm, [u, nm, audit](Inst &I, mcx::Verdict &vd) { OPN2_BankId id; id.percussive = (OPN2_UInt8)U[u].perc; id.msb = (OPN2_UInt8)U[u].msb; id.lsb = (OPN2_UInt8)U[u].lsb; OPN2_Bank bk; int rc = opn2_getBank(D, &id, OPNMIDI_Bank_Create, &bk); if(rc != 0) { vd.fail(g_label + "/bank/create-failed", nm + " returned " + std::to_string(rc)); return; } I.refbanks.insert(u); audit(I, vd, nm); });
                 snprintf(b, sizeof b, "bank:remove(%d/%d/%d)", U[u].perc, U[u].msb, U[u].lsb); nm = b;
                 add(nm, [u, nm, audit](Inst &I, mcx::Verdict &vd) { OPN2_BankId id; id.percussive = (OPN2_UInt8)U[u].perc; id.msb = (OPN2_UInt8)U[u].msb; id.lsb = (OPN2_UInt8)U[u].lsb; OPN2_Bank bk; int rc = opn2_getBank(D, &id, 0, &bk); if(rc == 0) { opn2_removeBank(D, &bk); I.refbanks.erase(u); } audit(I, vd, nm); });
             }
             add("bank:reserveBanks(8)", [audit](Inst &I, mcx::Verdict &vd) { opn2_reserveBanks(D, 8); audit(I, vd, "reserveBanks(8)"); });
+            // a note on a channel whose bank select points into the colliding buckets (present and absent ids): the lookup must come back
+            struct PB { int msb, lsb; }; for(PB pb : {PB{0, 0}, PB{0, 1}, PB{2, 1}, PB{6, 1}, PB{1, 0}}) { snprintf(b, sizeof b, "bank:play(bank %d/%d)", pb.msb, pb.lsb); nm = b;
+                add(nm, [pb, nm, audit](Inst &I, mcx::Verdict &vd) { opn2_rt_bankChange(D, 0, (OPN2_SInt16)(pb.msb * 256 + pb.lsb)); opn2_rt_noteOn(D, 0, 60, 100); opn2_rt_noteOff(D, 0, 60); opn2_rt_noteOn(D, 9, 60, 100); opn2_rt_noteOff(D, 9, 60); audit(I, vd, nm); }); }
         }
         add("getFirstBank()", [](Inst &I, mcx::Verdict &) { OPN2_Bank bk; if(opn2_getFirstBank(D, &bk) == 0) { I.bank = bk; I.have_bank = true; } });
         add("getNextBank(handle)", [](Inst &I, mcx::Verdict &) { if(!I.have_bank) return; OPN2_Bank bk = I.bank; if(opn2_getNextBank(D, &bk) == 0) I.bank = bk; });
@@ -184,7 +188,7 @@ struct C03Model : mcx::Model {
     std::string start_name(size_t s) const override { return starts[s]; }
     void *fresh(size_t st) override {
         Inst *I = new Inst; I->in.create(44100); OPN2_MIDIPlayer *d = I->in.dev; const std::string &s = starts[st];
-        if(s != "fresh") { opn2_setNumChips(d, s == "drums2chips" ? 2 : 1); opn2_openBankData(d, g_bank.data(), (long)g_bank.size()); }
+        if(s != "fresh") { opn2_setNumChips(d, s == "drums2chips" ? 2 : 1); opn2_openBankData(d, g_bank.data(), (long)g_bank.size()); if(subset == "banks") I->refbanks = {0, 1}; /* the loaded file holds melodic 0/0 and percussion 0/0 */ }
         static short buf[8192];
         if(s == "smf-half") { opn2_openData(d, g_smf.data(), (unsigned long)g_smf.size()); opn2_play(d, 8000, buf); }
         else if(s == "xmi") opn2_openData(d, g_xmi.data(), (unsigned long)g_xmi.size());
@@ -204,6 +208,7 @@ struct C03Model : mcx::Model {
 
 int main(int argc, char **argv) {
     mcx::Args a = mcx::parse_args(argc, argv);
+    static std::string label; label = a.extra.count("as") ? a.extra["as"] : "C03"; g_label = label;   // the bank-operation subset also serves C02 (bounded time for every call on loaded banks)
     pl::install_hooks(!(a.extra.count("subset") && a.extra["subset"] == "cores"));
     { pl::BankSpec m; pl::InsSpec s; s.id = 1; for(int i = 0; i < 128; i++) m.ins[i] = s; pl::BankSpec p; p.percussive = true; pl::InsSpec dd; dd.id = 2; dd.drum_key = 40; dd.kon_ms = 100; for(int i = 27; i < 88; i++) p.ins[i] = dd;
       g_bank = pl::make_wopn({m, p}); g_trunc.assign(g_bank.begin(), g_bank.begin() + 300); g_garbage.assign(64, 'Z'); }
@@ -211,7 +216,7 @@ int main(int argc, char **argv) {
     C03Model m; m.thorough = a.tier == "thorough"; if(a.extra.count("subset")) m.subset = a.extra["subset"];
     m.starts = {"fresh", "bank", "smf-half", "xmi", "rsxx", "drums2chips", "busy1chip"};
     if(!m.subset.empty()) m.starts = {"bank", "drums2chips", "busy1chip"};
-    if(m.subset == "banks") m.starts = {"fresh"};
+    if(m.subset == "banks") m.starts = {"fresh", "bank"};
     if(m.subset == "cores") m.starts = {"bank", "smf-half"};
     m.build();
     // coverage of the exported API: every opn2_* function declared in the header must be reached by the op table
@@ -220,5 +225,5 @@ int main(int argc, char **argv) {
       std::vector<std::string> missing; for(auto &f : exported) if(!g_called.count(f)) missing.push_back(f);
       fprintf(stderr, "[c03] exported functions: %zu, reached by the op table: %zu, ops: %zu\n", exported.size(), exported.size() - missing.size(), m.ops.size());
       if(!missing.empty()) { for(auto &f : missing) fprintf(stderr, "[c03] NOT COVERED: %s\n", f.c_str()); return 2; } }
-    return mcx::run_main(argc, argv, m, "C03", 2, 2);
+    return mcx::run_main(argc, argv, m, label.c_str(), 2, 2);
 }
